@@ -24,6 +24,9 @@ def plan(tier, seed):
     return [{"shard": i, "reps": 25 if tier == "quick" else 30000} for i in range(16)]
 
 
+WIDE_LAMBDAS = [0.21, 0.999, 1.0, 1.001, 3.7, 1e-3, 1.0000001e-3, 30.0, 999.0, 1000.0, 1500.0, 0.5, 2.0]
+
+
 def rel(ctx, name, got, want, tol, mech, wit):
     want = np.asarray(want, dtype=np.float64)
     got = np.asarray(got, dtype=np.float64)
@@ -43,6 +46,12 @@ def run(ctx, spec):
     T = 2e-13
     for rep in range(spec["reps"]):
         lam = float(10 ** rng.uniform(-7, -4.5))
+        # every positive wavelength is in the quantifier: every third repetition leaves the optical band (X-ray ... decametre
+        # radio), and a deterministic cycle visits wavelengths on both sides of 'round' values (1 mm, 1 m, 1 km)
+        if rep % 3 == 1:
+            lam = float(10 ** rng.uniform(-10, 3.5))
+        elif rep % 3 == 2 and rep % 2 == 0:
+            lam = WIDE_LAMBDAS[(rep // 6) % len(WIDE_LAMBDAS)]
         k = int(rng.integers(0, 6))
         t32 = 1e-5 if k == 4 else T   # float32 argument: single-precision arithmetic
         cn2 = float(10 ** rng.uniform(-16, -10))
